@@ -321,3 +321,41 @@ def _post_dealloc(m, st, out):
 
 
 R.c_contract(F + "Buffer_dealloc", setup=_setup_dealloc, post=_post_dealloc, prop=["C04"])
+
+
+# ---- lemmas over the two specification functions used above (pure bit-vector facts, no code involved)
+def _lemma_varint_roundtrip():
+    from engine.pyvc.core import Obligation
+
+    v = z3.BitVec("v", 64)
+    out = []
+    for n, pfx, lo, hi in ((1, 0, 0, 0x3F), (2, 1, 0x40, 0x3FFF), (4, 2, 0x4000, 0x3FFFFFFF), (8, 3, 0x40000000, 0x3FFFFFFFFFFFFFFF)):
+        inrange = z3.And(z3.UGE(v, bv(lo)), z3.ULE(v, bv(hi)))
+        enc = z3.Extract(8 * n - 1, 0, v) | z3.BitVecVal(pfx << (8 * n - 2), 8 * n)  # what push_uint_var is proved to write
+        first = z3.Extract(8 * n - 1, 8 * n - 8, enc)
+        prefix = z3.LShR(first, 6)
+        dec_len = z3.If(prefix == 0, 1, z3.If(prefix == 1, 2, z3.If(prefix == 2, 4, 8)))
+        dec_val = z3.ZeroExt(64 - 8 * n, enc) & bv((1 << (8 * n - 2)) - 1)  # what pull_uint_var is proved to return
+        out.append(Obligation("varint_roundtrip:len%d.length" % n, "lemma", [inrange], dec_len == n, note="the decoder reads back the length the encoder chose (%d bytes)" % n))
+        out.append(Obligation("varint_roundtrip:len%d.value" % n, "lemma", [inrange], dec_val == v, note="dec(enc(v)) == v for %d-byte encodings" % n))
+        if n > 1:
+            out.append(Obligation("varint_roundtrip:len%d.minimal" % n, "lemma", [inrange], z3.UGT(v, bv(lo - 1)), note="the %d-byte form is used only for values that do not fit the shorter form" % n))
+    return out
+
+
+def _lemma_fixed_roundtrip():
+    from engine.pyvc.core import Obligation
+
+    out = []
+    for n in (1, 2, 4, 8):
+        v = z3.BitVec("v%d" % n, 8 * n)
+        bs = [z3.Extract(8 * (n - 1 - i) + 7, 8 * (n - 1 - i), v) for i in range(n)]  # bytes written by push_uintN (big-endian)
+        back = bs[0]
+        for b_ in bs[1:]:
+            back = z3.Concat(back, b_)
+        out.append(Obligation("fixed_roundtrip:uint%d" % (8 * n), "lemma", [], back == v, note="big-endian decode(encode(v)) == v for %d-bit integers" % (8 * n)))
+    return out
+
+
+R.lemma("varint_roundtrip", build=_lemma_varint_roundtrip, prop=["C17"])
+R.lemma("fixed_roundtrip", build=_lemma_fixed_roundtrip, prop=["C17"])
